@@ -1237,7 +1237,7 @@ func (sc *scn) runConcurrent() {
 	W := r.Range(2, 4)
 	Rn := r.Range(1, 3)
 	shared := r.Chance(0.6)
-	sc.newReaderSet(r.Range(1, Rn))
+	sc.newReaderSet(Rn) // one bound RTCP reader per reader goroutine
 	nInst := r.Range(1, 2)
 	for i := 0; i < nInst; i++ {
 		in := sc.bind(sc.freshSSRC(), r.Chance(0.5))
